@@ -3,7 +3,8 @@
    criteria [cs] and in-memory id counters [a]; the shipped criteria are the definitions
    regenerated from gffutils/merge_criteria.py on every run (Gen/GenCriteria.v). *)
 From GV Require Import Base.Prelude Base.PyStr Model.Bins Model.DB Model.Parser Model.Query Model.Import Model.Merge
-  Gen.GenLib Gen.GenCriteria Proofs.C16Proofs Proofs.C16Union Proofs.C16Classes.
+  Gen.GenLib Gen.GenCriteria Proofs.C16Proofs Proofs.C16Union Proofs.C16Classes Proofs.C16All.
+From GV Require Import Model.Order.
 Open Scope Z_scope.
 
 (* every input is yielded unchanged (no children) or is a child of exactly one merged output, in
@@ -89,3 +90,34 @@ Theorem C16_sorted_input_one_stretch_per_class : forall (R : str * str * str -> 
   NoDup (map block_class (group fs)) /\ Forall start_sorted (group fs).
 Proof. exact l_sorted_one_stretch. Qed.
 Print Assumptions C16_sorted_input_one_stretch_per_class.
+
+(* ---- merge_all ---- *)
+(* a merged output always has at least two members: "one new feature per MULTI-member run" *)
+Theorem C16_merged_has_two_members : forall cs fs a id acc fr ch,
+  In (OMerged id acc fr ch) (fst (merge cs fs a)) -> (2 <= length ch)%nat.
+Proof. exact l_merged_two. Qed.
+Print Assumptions C16_merged_has_two_members.
+
+(* merge_all(exclude_components=False), any merge_order and criteria: merge() runs once over the whole table in
+   merge_order ([merge_inputs]); the table gains exactly one row per merged output (keys in output order, after the old
+   rows, which keep their keys and their order), the relations table gains exactly one level-1 row (output, member) per
+   member, and nothing else changes (duplicates, persisted counters); the live counters are those merge() left *)
+Theorem C16_merge_all_relates_members : forall order cs st mem st' mem', merge_all_with order cs false st mem = Ok (st', mem') ->
+  let outs := fst (merge cs (merge_inputs order st) mem) in
+  mem' = snd (merge cs (merge_inputs order st) mem) /\
+  map r_id (s_rows st') = map r_id (s_rows st) ++ merged_ids outs /\
+  s_rels st' = s_rels st ++ member_rels outs /\ s_dups st' = s_dups st /\ s_auto st' = s_auto st.
+Proof. exact l_merge_all_keep. Qed.
+Print Assumptions C16_merge_all_relates_members.
+
+(* merge_all(exclude_components=True): every relation that mentions a member is deleted and no other; the members' rows
+   are deleted and one row per merged output is added (when no fresh id collides with a member's id - C16_fresh_ids) *)
+Theorem C16_merge_all_deletes_members : forall order cs st mem st' mem', merge_all_with order cs true st mem = Ok (st', mem') ->
+  let outs := fst (merge cs (merge_inputs order st) mem) in
+  mem' = snd (merge cs (merge_inputs order st) mem) /\
+  s_rels st' = filter (fun x => negb (mem_str (rel_parent x) (member_ids outs) || mem_str (rel_child x) (member_ids outs))) (s_rels st) /\
+  s_dups st' = s_dups st /\ s_auto st' = s_auto st /\
+  ((forall id, In id (merged_ids outs) -> ~ In id (member_ids outs)) ->
+   map r_id (s_rows st') = filter (fun i => negb (mem_str i (member_ids outs))) (map r_id (s_rows st)) ++ merged_ids outs).
+Proof. exact l_merge_all_exclude. Qed.
+Print Assumptions C16_merge_all_deletes_members.
